@@ -9,16 +9,16 @@ import (
 )
 
 type FuncResult struct {
-	Fn        *ssa.Function
-	Name      string
-	Contract  *Contract
-	Config    string
-	Obls      []*Obligation
-	Err       string // generation failure
-	Trusted   []string
-	Loops     []string
-	GenTime   float64
-	Skipped   string
+	Fn       *ssa.Function
+	Name     string
+	Contract *Contract
+	Config   string
+	Obls     []*Obligation
+	Err      string // generation failure
+	Trusted  []string
+	Loops    []string
+	GenTime  float64
+	Skipped  string
 }
 
 func resetGlobals() {
